@@ -51,18 +51,21 @@ CleanAcc(rest, acc, isAbs) ==
   IF rest = <<>> THEN acc
   ELSE LET h == Head(rest) t == Tail(rest) IN
        IF h \in {"e", "d"} THEN CleanAcc(t, acc, isAbs)
+       \* two macro segments (Shape = "deep" only): "deep" = 64 harmless names in a row, "dd66" = 66 ".." in a row - a path
+       \* that climbs out only after more components than a bounded scan of the path might look at. They are applied in
+       \* one step each (acc always has the form dd* name*), so that the recursion stays as deep as the path has segments
+       ELSE IF h = "deep" THEN CleanAcc(t, acc \o [i \in 1..64 |-> "n"], isAbs)
+       ELSE IF h = "dd66"
+              THEN LET names == Cardinality({i \in 1..Len(acc) : acc[i] # "dd"})
+                       pops == IF names < 66 THEN names ELSE 66
+                   IN CleanAcc(t, SubSeq(acc, 1, Len(acc) - pops) \o (IF isAbs THEN <<>> ELSE [i \in 1..(66 - pops) |-> "dd"]), isAbs)
        ELSE IF h = "dd"
               THEN IF acc # <<>> /\ acc[Len(acc)] # "dd" THEN CleanAcc(t, SubSeq(acc, 1, Len(acc) - 1), isAbs)
                    ELSE IF isAbs THEN CleanAcc(t, acc, isAbs) ELSE CleanAcc(t, Append(acc, "dd"), isAbs)
               ELSE CleanAcc(t, Append(acc, h), isAbs)
 
 \* Join(a, b...) = Clean(a ++ b); an absolute later element does not reset the path in Go's Join
-\* two macro segments (Shape = "deep" only): "deep" = 64 harmless names in a row, "dd66" = 66 ".." in a row - a path
-\* that climbs out only after more components than a bounded scan of the path might look at
-RECURSIVE Expand(_)
-Expand(s) == IF s = <<>> THEN <<>>
-             ELSE (CASE Head(s) = "deep" -> [i \in 1..64 |-> "n"] [] Head(s) = "dd66" -> [i \in 1..66 |-> "dd"] [] OTHER -> <<Head(s)>>) \o Expand(Tail(s))
-JoinClean(a, b) == CleanAcc(Expand(a \o b), <<>>, TRUE)
+JoinClean(a, b) == CleanAcc(a \o b, <<>>, TRUE)
 
 IsPrefix(p, q) == Len(p) <= Len(q) /\ SubSeq(q, 1, Len(p)) = p
 Below(target) == IsPrefix(Out, target)
